@@ -24,6 +24,37 @@ RULE_TEXT = (
 )
 
 
+def _drains_finite_generator(prog, fi, n):
+    """while True: try: x = next(g) / except StopIteration: break ... with g bound once, to a call
+    of a generator function of the repository that has no while loop of its own"""
+    from sa.model import dotted_chain
+
+    if not (isinstance(n.test, ast.Constant) and n.test.value in (True, 1)) or not n.body or n.orelse:
+        return False
+    t = n.body[0]
+    if not (isinstance(t, ast.Try) and len(t.body) == 1 and isinstance(t.body[0], ast.Assign) and t.handlers):
+        return False
+    call = t.body[0].value
+    if not (isinstance(call, ast.Call) and isinstance(call.func, ast.Name) and call.func.id == "next" and len(call.args) == 1 and isinstance(call.args[0], ast.Name)):
+        return False
+    h0 = t.handlers[0]
+    if not (isinstance(h0.type, ast.Name) and h0.type.id == "StopIteration" and len(h0.body) == 1 and isinstance(h0.body[0], ast.Break)):
+        return False
+    g = call.args[0].id
+    binds = [x for x in ast.walk(fi.node) if isinstance(x, ast.Assign) and any(isinstance(tg, ast.Name) and tg.id == g for tg in x.targets)]
+    others = [x for x in ast.walk(fi.node) if isinstance(x, ast.Name) and x.id == g and isinstance(x.ctx, ast.Store)]
+    if len(binds) != 1 or len(others) != 1 or not isinstance(binds[0].value, ast.Call):
+        return False
+    chain = dotted_chain(binds[0].value.func)
+    if not chain:
+        return False
+    r, rest = prog.resolve_dotted(fi.mod, chain)
+    if r[0] != "func" or rest:
+        return False
+    gfi = prog.funcs.get(r[1])
+    return gfi is not None and gfi.is_generator and not any(isinstance(x, ast.While) for x in ast.walk(gfi.node))
+
+
 def run(ctx):
     eng, prog = ctx.eng, ctx.prog
     ctx.assume("A1", "A3", "A4", "A5", "A6", "A8")
@@ -42,7 +73,10 @@ def run(ctx):
     for q in sorted(cone):
         fi = prog.funcs[q]
         for n in cg._own_nodes(fi):
-            if isinstance(n, ast.While):
+            if isinstance(n, ast.While) and _drains_finite_generator(prog, fi, n):
+                s = prog.site(fi.mod, n, q)
+                ctx.ob("R3", "while|%s|%s" % (q, s.text), s.loc(), "while loop in %s advances a generator of the repository by next() at the top of every iteration and leaves at StopIteration: it ends when the generator (for-loops only) is exhausted" % q, True)
+            elif isinstance(n, ast.While):
                 s = prog.site(fi.mod, n, q)
                 ctx.ob("R3", "while|%s|%s" % (q, s.text), s.loc(), "while loop in %s, reachable from a validator/verifier: termination is not structurally guaranteed" % q, False)
             elif isinstance(n, (ast.For, ast.comprehension)):
